@@ -1,11 +1,11 @@
 package main
 
 import (
-	"os"
 	"fmt"
 	"go/constant"
 	"go/token"
 	"go/types"
+	"os"
 	"strings"
 
 	"golang.org/x/tools/go/ssa"
@@ -856,8 +856,64 @@ func canonCond(v ssa.Value, truth bool) string {
 // canonFacts returns the canonical facts dominating block b (plus extra).
 func canonFacts(b *ssa.BasicBlock, extra ...Fact) map[string]bool {
 	out := map[string]bool{}
-	for _, f := range append(condFacts(b), extra...) {
-		out[canonCond(f.Cond, f.Truth)] = true
+	facts := append(condFacts(b), extra...)
+	// sibling refinement: a fact on a boolean phi with constant incoming values that only one incoming edge satisfies
+	// (the `ok` result of an inlined helper) tells through which edge its block was entered; the other phis of that
+	// block (the helper's value result) then have the value of that edge
+	var env map[ssa.Value]string
+	for _, f := range facts {
+		phi, ok := f.Cond.(*ssa.Phi)
+		if !ok {
+			continue
+		}
+		if bt, isB := phi.Type().Underlying().(*types.Basic); !isB || bt.Kind() != types.Bool {
+			continue
+		}
+		chosen, n := -1, 0
+		for i, e := range phi.Edges {
+			cv, isC := e.(*ssa.Const)
+			if !isC || cv.Value == nil || cv.Value.Kind() != constant.Bool {
+				n = 99
+				break
+			}
+			if constant.BoolVal(cv.Value) == f.Truth {
+				chosen = i
+				n++
+			}
+		}
+		if n != 1 || phi.Block().Dominates(phi.Block().Preds[chosen]) {
+			continue
+		}
+		for _, ins := range phi.Block().Instrs {
+			other, isPhi := ins.(*ssa.Phi)
+			if !isPhi {
+				break
+			}
+			if other == phi {
+				continue
+			}
+			if env == nil {
+				env = map[ssa.Value]string{}
+				for k, v := range pathEnv {
+					env[k] = v
+				}
+			}
+			env[other] = accessPath(other.Edges[chosen])
+		}
+	}
+	render := func() {
+		for _, f := range facts {
+			out[canonCond(f.Cond, f.Truth)] = true
+		}
+	}
+	if env != nil {
+		withPathEnv(env, render)
+		// the unrefined renderings stay available to matchers written against them
+		for _, f := range facts {
+			out[canonCond(f.Cond, f.Truth)] = true
+		}
+	} else {
+		render()
 	}
 	return out
 }
@@ -1217,7 +1273,6 @@ func reachesBack(hb *ssa.BasicBlock, edge int) bool {
 	return false
 }
 
-
 // isNewFunc: a named function of the module (exported or not) that the reference tree does not have.
 func isNewFunc(fn *ssa.Function) bool {
 	if fn == nil || fn.Parent() != nil || fn.Synthetic != "" || fn.Blocks == nil || !inModule(fnPkgPath(fn)) || fn.Object() == nil {
@@ -1269,7 +1324,6 @@ func newAccessorPath(call *ssa.Call, args []string, depth int) (string, bool) {
 	withPathEnv(env, func() { out = accessPathD(ret.Results[0], depth+1) })
 	return out, true
 }
-
 
 // flipCmp: the operator of `b op' a` equivalent to `a op b`.
 func flipCmp(op token.Token) token.Token {
@@ -1391,7 +1445,6 @@ func returnedCases(f *ssa.Function, idx int) []retCase {
 	return out
 }
 
-
 // localStructField: v reads field k of a struct held in a local (`s.k` as a load through FieldAddr, or Field of a loaded
 // struct value) and that local got field k from exactly one store (directly, or by one whole-struct copy of another
 // such local). It returns the stored value, or nil.
@@ -1486,7 +1539,6 @@ func structFieldOfAlloc(al *ssa.Alloc, idx int, depth int) ssa.Value {
 	}
 	return nil
 }
-
 
 // localStructFieldCases: like localStructField, but the local may be assigned as a whole in several places (each from a
 // composite built on the spot, or from another such local): every alternative with the block it was assigned in.
@@ -1608,7 +1660,6 @@ func structFieldCasesOfAlloc(al *ssa.Alloc, idx int, depth int) (res []retCase) 
 	return nil
 }
 
-
 // structValueFieldCases: field idx of a struct-typed SSA value: a struct loaded from a local, or a phi of such values
 // (a result variable assigned in several branches).
 func structValueFieldCases(v ssa.Value, idx int, blk *ssa.BasicBlock, depth int) []retCase {
@@ -1647,7 +1698,6 @@ func structValueFieldCases(v ssa.Value, idx int, blk *ssa.BasicBlock, depth int)
 	}
 	return nil
 }
-
 
 // sameValue: a and b denote one and the same value: identical, or both resolve (through single-assignment locals and
 // the fields of small local structs) to the same defining value.
@@ -1696,14 +1746,14 @@ func callPart(v ssa.Value) (*ssa.Call, int, bool) {
 				base = allocSingleStore(al)
 			}
 		}
-		if call, ok := base.(*ssa.Call); ok {
+		if call := structCallOf(base); call != nil {
 			return call, x.Field, true
 		}
 	case *ssa.UnOp:
 		if x.Op == token.MUL {
 			if fa, ok := x.X.(*ssa.FieldAddr); ok {
 				if al, ok := fa.X.(*ssa.Alloc); ok {
-					if call, ok := allocSingleStore(al).(*ssa.Call); ok {
+					if call := structCallOf(allocSingleStore(al)); call != nil {
 						return call, fa.Field, true
 					}
 				}
@@ -1713,10 +1763,28 @@ func callPart(v ssa.Value) (*ssa.Call, int, bool) {
 	return nil, 0, false
 }
 
+// structCallOf: v is the struct a call returns - the call itself, or element 0 of its (struct, error) result tuple.
+func structCallOf(v ssa.Value) *ssa.Call {
+	switch x := v.(type) {
+	case *ssa.Call:
+		return x
+	case *ssa.Extract:
+		if call, ok := x.Tuple.(*ssa.Call); ok && x.Index == 0 {
+			if _, isStruct := x.Type().Underlying().(*types.Struct); isStruct {
+				return call
+			}
+		}
+	}
+	return nil
+}
+
 // returnPart: component idx of what r returns: Results[idx], or field idx of the single struct result when that struct
 // is assembled in a local at the return (nil if it cannot be read off).
 func returnPart(r *ssa.Return, idx int) ssa.Value {
-	if len(r.Results) > 1 || len(r.Results) == 0 {
+	if len(r.Results) == 0 {
+		return nil
+	}
+	if _, isStruct := r.Results[0].Type().Underlying().(*types.Struct); len(r.Results) > 1 && !isStruct {
 		if idx < len(r.Results) {
 			return r.Results[idx]
 		}
@@ -1727,6 +1795,11 @@ func returnPart(r *ssa.Return, idx int) ssa.Value {
 			return r.Results[0]
 		}
 		return nil
+	}
+	if k, isK := stripConv(r.Results[0]).(*ssa.Const); isK && k.Value == nil {
+		if st, ok := k.Type().Underlying().(*types.Struct); ok && idx < st.NumFields() {
+			return ssa.NewConst(nil, st.Field(idx).Type()) // the zero struct
+		}
 	}
 	ld, ok := stripConv(r.Results[0]).(*ssa.UnOp)
 	if !ok || ld.Op != token.MUL {
